@@ -11,7 +11,7 @@ use crate::rm::decide::{Stage, Verdict};
 use crate::rm::lower;
 use crate::run::{finish, preflight, Ctx, Report, Tally, Tier};
 
-pub const NEUTRAL: [&str; 10] = [
+pub const NEUTRAL: [&str; 11] = [
     "long-inner-space-run",
     "name-case",
     "reorder-different-names",
@@ -19,6 +19,7 @@ pub const NEUTRAL: [&str; 10] = [
     "double-inner-space",
     "add-unsigned-header",
     "add-unsigned-near-requirement",
+    "add-unsigned-special-name",
     "remove-unsigned-header",
     "alter-unsigned-header",
     "duplicate-unsigned-header",
@@ -223,6 +224,41 @@ fn child(kind: &str, r: &mut Rng, parent: &Case, signed: &[String]) -> Option<Ca
                 gen_header_value(r)
             };
             h.insert(pos, (name.into_bytes(), value));
+        }
+        "add-unsigned-special-name" => {
+            // headers that mean something to S3, to proxies or to the *other* carrier, with the kind of value they really
+            // carry: unsigned and unrequired, they mean nothing to this verifier (Content-Type and the date / token headers
+            // are consulted and therefore not in this list)
+            let digest_of_other = crate::sha::hex(&crate::sha::sha256(&r.bytes(8)));
+            let digest_of_body = crate::sha::hex(&crate::sha::sha256(&parent.wire.body));
+            let specials: [(&str, String); 16] = [
+                ("x-amz-content-sha256", digest_of_other.clone()),
+                ("x-amz-content-sha256", digest_of_body),
+                ("x-amz-content-sha256", "UNSIGNED-PAYLOAD".to_string()),
+                ("x-amz-content-sha256", "STREAMING-AWS4-HMAC-SHA256-PAYLOAD".to_string()),
+                ("x-amz-content-sha256", digest_of_other.to_uppercase()),
+                ("content-md5", "1B2M2Y8AsgTpgAmY7PhCfg==".to_string()),
+                ("x-amz-decoded-content-length", "1048576".to_string()),
+                ("content-encoding", "aws-chunked".to_string()),
+                ("transfer-encoding", "chunked".to_string()),
+                ("expect", "100-continue".to_string()),
+                ("x-amz-expires", "604800".to_string()),
+                ("x-amz-algorithm", "AWS4-HMAC-SHA256".to_string()),
+                ("x-amz-signedheaders", "host".to_string()),
+                ("x-amz-credential", "AKIDOTHER/20110909/us-east-1/host/aws4_request".to_string()),
+                ("x-amz-signature", "0".repeat(64)),
+                ("x-http-method-override", "DELETE".to_string()),
+            ];
+            let (name, value) = r.pick(&specials).clone();
+            if h.iter().any(|(n, _)| lower(n) == name) || signed.iter().any(|s| *s == name) || required_by(&parent.cfg.reqs, name) || is_managed(name) {
+                return None;
+            }
+            let pos = r.usize_below(h.len() + 1);
+            let spelled = match r.below(3) {
+                0 => name.to_ascii_uppercase(),
+                _ => name.to_string(),
+            };
+            h.insert(pos, (spelled.into_bytes(), value.into_bytes()));
         }
         "add-unsigned-header" => {
             let name = format!("x-verif-unsigned-{}", r.below(4));
@@ -629,7 +665,7 @@ pub fn run(tier: Tier) -> i32 {
     }
     let rep = Report {
         level: "exploration",
-        rule: "W-sign parents with up to 8 extra headers (visible ASCII, 0x80–0xFF, inner spaces, repeated names with 2–4 values) and random signed subsets; children by one wire-level change: neutral (name letter case, order between different names, outer spaces / longer inner space runs (up to 200 spaces) in signed values, unsigned-unrequired-unconsulted headers added / removed / altered / duplicated; every other parent is validated by a service that declares always-required, required-if-present and prefix requirements, and a header is added whose name is a near miss of a declared one: a proper prefix of a declared prefix, a declared name plus or minus a letter) — must stay accepted; binding (every line of a signed header removed — also when its value was empty or blank —, a byte / an extra line of a signed Host, Content-Type or token header, Host with or without a default port or trailing dot, a byte of a signed value, appended byte, swap of two values of one signed name, dropped or duplicated value, a space moved into a token, an inner space removed, TAB for space) — must be refused. Plus, through the crate's `unstable` API, one CanonicalRequest asked for its canonical form and digest under 2–4 signed subsets in a row, each compared with the reference block for that subset. Two oracles: the parent/child relation (model-free; for neutral children also the provider's call arguments and the returned identity must equal the parent's) and the reference header block. Non-trivial = neutral child accepted / binding child refused with the signature-mismatch class; distinct by case hash.".into(),
+        rule: "W-sign parents with up to 8 extra headers (visible ASCII, 0x80–0xFF, inner spaces, repeated names with 2–4 values) and random signed subsets; children by one wire-level change: neutral (name letter case, order between different names, outer spaces / longer inner space runs (up to 200 spaces) in signed values, unsigned-unrequired-unconsulted headers added / removed / altered / duplicated; every other parent is validated by a service that declares always-required, required-if-present and prefix requirements, and a header is added whose name is a near miss of a declared one: a proper prefix of a declared prefix, a declared name plus or minus a letter; an unsigned header that means something to S3, to proxies or to the other carrier — x-amz-content-sha256 with a real digest / UNSIGNED-PAYLOAD, content-md5, expect, x-amz-expires, x-amz-credential … — with the value it really carries) — must stay accepted; binding (every line of a signed header removed — also when its value was empty or blank —, a byte / an extra line of a signed Host, Content-Type or token header, Host with or without a default port or trailing dot, a byte of a signed value, appended byte, swap of two values of one signed name, dropped or duplicated value, a space moved into a token, an inner space removed, TAB for space) — must be refused. Plus, through the crate's `unstable` API, one CanonicalRequest asked for its canonical form and digest under 2–4 signed subsets in a row, each compared with the reference block for that subset. Two oracles: the parent/child relation (model-free; for neutral children also the provider's call arguments and the returned identity must equal the parent's) and the reference header block. Non-trivial = neutral child accepted / binding child refused with the signature-mismatch class; distinct by case hash.".into(),
         assumptions: vec!["'spaces' means 0x20 exactly; TAB is an ordinary value byte (DESIGN §6)".into()],
         extra: J::obj().set("calibrated_vectors", J::i(pre.unwrap_or(0) as i64)),
     };
